@@ -44,13 +44,14 @@ def clear_pony_caches(db):
             c.clear()
 
 
-def export_cases(ctx, inputs, tag):
+def export_cases(ctx, inputs, tag, sort=True):
     data, res = tlc.evaluate('QuerySemTables', ctx.scratch, inputs=inputs, tag=tag)
     cases = data['cases']
     for c in cases:
         if not c['out']:
             raise MachineryError('a sampled tree is not well-typed under QuerySem!WellTyped: %s' % json.dumps(c['q']))
-    cases.sort(key=lambda c: (qs.describe(c['q']), json.dumps(c['q'], sort_keys=True)))
+    if sort:
+        cases.sort(key=lambda c: (qs.describe(c['q']), json.dumps(c['q'], sort_keys=True)))
     return data['datasets'], [k - 1 for k in data['nonefree']], cases
 
 
